@@ -37,7 +37,7 @@ PROPS["C04"] = {
 
 PROPS["C05"] = {
     "level": "exploration",
-    "rule": "seeded cases (encrypted protocol x cipher x user table x role x wire source x 2-6 single-chunk frames); per case every mutation of the families bit-flip (every byte position of streams <= 400 bytes, sampled above), truncation (every point, then EOF), frame deletion / duplication / adjacent swap / replay of an earlier frame, random insertion at frame boundaries, random multi-byte edits, reflection of the peer's own request (SS2022, VMess); delivered whole or in random cuts through the real FramedRead and (1 in 7) WebSocketFramed, polled past errors like the server relay; plus every single-bit flip and truncation of Shadowsocks UDP datagrams in both roles; non-trivial = a mutated stream/datagram was delivered and what was released was compared; distinct = distinct (case, mutation)",
+    "rule": "seeded cases (encrypted protocol x cipher x user table x role x wire source x 2-6 single-chunk frames); per case every mutation of the families bit-flip (every byte position of streams <= 400 bytes, sampled above), truncation (every point, then EOF), frame deletion / duplication / adjacent swap / replay of an earlier frame, random insertion at frame boundaries, random multi-byte edits, reflection of the peer's own request (SS2022, VMess); streams of 66200 one-byte chunks (VMess both securities, Shadowsocks) with adjacent swaps, duplications, deletions and replays around the counter carries (127/128, 255/256, 32767/32768, 65535/65536/65537) and, for VMess, swaps of equal-length frames beyond the 16-bit counter; delivered whole or in random cuts through the real FramedRead and (1 in 7) WebSocketFramed, polled past errors like the server relay; plus every single-bit flip and truncation of Shadowsocks UDP datagrams in both roles, and reflected datagrams in both directions including ones crafted so that their fields are well-formed when read with the opposite direction's layout (only the direction marker stands between them and acceptance); non-trivial = a mutated stream/datagram was delivered and what was released was compared; distinct = distinct (case, mutation)",
     "exhaustive_note": "single-bit flips (one bit per byte position; two in thorough) and truncation points are enumerated completely for streams <= 400 bytes and for every UDP datagram",
     "assumptions": TB + ["each write is at most one chunk in every encoder, so frame boundaries are AEAD unit-group boundaries and give the exact cut-off", "VMess GlobalPadding bytes are unauthenticated by protocol design: with padding in play only the prefix property is demanded, not the cut-off", "SIP004 (legacy) reflection is out of scope (the property names SS2022 and VMess)"],
     "plan": [{"name": "tamper", "check": "c05"}],
@@ -59,6 +59,7 @@ PROPS["C07"] = {
     "plan": [
         {"name": "crash-native", "check": "c07"},
         {"name": "crash-dev-profile", "check": "c07", "variant": "dev", "scale": 0.25, "tiers": ("thorough",)},
+        {"name": "miri", "kind": "python", "module": "miristep", "tiers": ("thorough",), "optional": True, "shards": 14},
         {"name": "crash-asan", "check": "c07", "variant": "asan", "scale": 0.1, "tiers": ("thorough",), "optional": True, "env": {"ASAN_OPTIONS": "detect_leaks=0:halt_on_error=1:abort_on_error=0"}},
     ],
 }
@@ -83,7 +84,7 @@ PROPS["C10"] = {
 
 PROPS["C12"] = {
     "level": "exploration",
-    "rule": "the instrumented reference decoder records (key fingerprint, nonce) of every AEAD unit it opens while decoding what the REAL encoders emitted: 60 sessions per deployment (3 of them with up to 300 writes each way) over every encrypted protocol/cipher, one 70000-chunk session per stream family (65535 for VMess: the 16-bit counter wrap is protocol-defined), Shadowsocks UDP sessions of 1500 / 10000 datagrams in both directions; a hash set finds reuse; per-session randomness (request/response salts, session ids, VMess body key/IV, auth ids, connection nonces, XChaCha nonces, legacy UDP salts) is checked for repeats, stuck bits, and against an independently started second process; packet ids must strictly increase and a session preset to u64::MAX-2 must end instead of wrapping; evaluations = deployments + counter-end sessions; distinct = deployments with at least one recorded unit",
+    "rule": "the instrumented reference decoder records (key fingerprint, nonce) of every AEAD unit it opens while decoding what the REAL encoders emitted: 60 sessions per deployment (3 of them with up to 300 writes each way) over every encrypted protocol/cipher, one 70000-chunk session per stream family (65535 for VMess: the 16-bit counter wrap is protocol-defined), Shadowsocks UDP sessions of 1500 / 10000 datagrams in both directions; a hash set finds reuse; a unit that does not open under the prescribed key and nonce is tried (diagnostic mode of the reference decoder) under the other keys of its session and the neighbouring counter values and recorded under the pair it was REALLY sealed with, so that a reuse is named instead of being lost in a decode failure; per-session randomness (request/response salts, session ids, VMess body key/IV, auth ids, connection nonces, XChaCha nonces, legacy UDP salts) is checked for repeats, stuck bits, and against an independently started second process; packet ids must strictly increase and a session preset to u64::MAX-2 must end instead of wrapping; evaluations = deployments + counter-end sessions; distinct = deployments with at least one recorded unit",
     "assumptions": TB + ["unpredictability of the generator is NOT decidable by observation (a time- or pid-seeded generator passes); only distinctness, bit balance and cross-process independence are observed", "2^64 packets / 2^96 chunks cannot be produced: the packet-id end is reached through the guarded preset hook, the chunk counter through its first byte carries"],
     "plan": [{"name": "nonce-monitor", "check": "c12"}],
 }
@@ -107,21 +108,21 @@ PROPS["C01"] = {
 
 PROPS["C02"] = {
     "level": "exploration",
-    "rule": "UDP-capable configurations of the README table (Shadowsocks UDP x 7 ciphers x {0,1,3 users}; VMess x {tcp,tls,ws,wss,quic} x 2 securities; Trojan x {tls,wss,quic}; quick = a rotating third): K in {1,4,6/16} application sockets x M in {1,3} echo targets (IPv4 literal and domain), 24/60 datagrams each with sizes {21,64,512,1200,1472,2000,2048,4096,16000,32000}, 1 or 3 replies per datagram (the last from a second port), plus 0/1/2-byte datagrams one at a time; every datagram carries a unique id and is PRNG-filled, so the oracle checks at-most-once, whole, right target, reply to the right application socket, reply label = the target's address; a size class that is never answered while others are is a violation, sporadic loss is only counted; evaluations = configurations; distinct = configurations in which datagrams were verified",
+    "rule": "UDP-capable configurations of the README table (Shadowsocks UDP x 7 ciphers x {0,1,3 users}; VMess x {tcp,tls,ws,wss,quic} x 2 securities; Trojan x {tls,wss,quic}; quick = a rotating third): K in {1,4,6/16} application sockets x M in {1,3} echo targets (IPv4 literal and domain), 24/60 datagrams each with sizes {21,64,512,1200,1472,2000,2048,4096,16000,32000}, 1 or 3 replies per datagram (the last from a second port), plus 0/1/2-byte datagrams one at a time and a sweep over the top of the size range (40000, 60000, 65000, 65300 and every (quick: every third) size 65400..65497, one at a time from a fresh socket: whole and identical or not at all, the evidence names the largest size relayed per configuration); every datagram carries a unique id and is PRNG-filled, so the oracle checks at-most-once, whole, right target, reply to the right application socket, reply label = the target's address; a size class that is never answered while others are is a violation, sporadic loss is only counted; evaluations = configurations; distinct = configurations in which datagrams were verified",
     "assumptions": E2E_TB + ["sending is paced (window of 8) so that loopback does not drop", "a label naming the target the way the application addressed it (domain) counts as the target's address"],
     "plan": [{"name": "datagrams", "check": "c02", "bin": "osv-e2e", "timeout": {"quick": 900, "thorough": 3600}}],
 }
 
 PROPS["C15"] = {
     "level": "exploration",
-    "rule": "one cipher per protocol over the transports (quick: a rotating third of 4x5; thorough: all, plus every cipher over tcp): batches of 12/24 (thorough 16/32/64) concurrent flows ending in every way (target closes after answering, application closes after everything / right after its request / mid-transfer / at once, target closes mid-transfer / at once, application or target resets), flows to a refused port and to an unresolvable name, and six long flows whose client-server link is cut (FIN or RST) by a forwarder mid-transfer; oracles: positional streams (delivered first), end-of-stream on the far side, release of both ends after a link cut, and resource accounting: /proc/<pid>/fd by kind and tokio alive-task counts of client and server sampled until stable, compared with the idle baseline after each batch - growth with the number of ended flows is a violation, a constant offset is reported as warm-up state; evaluations = flows; distinct = distinct (configuration, flow)",
+    "rule": "one cipher per protocol over the transports (quick: a rotating third of 4x5; thorough: all, plus every cipher over tcp): batches of 12/24 (thorough 16/32/64) concurrent flows ending in every way (target closes after answering, application closes after everything / right after its request / mid-transfer / at once, target closes mid-transfer / at once, application or target resets, application closes while the target keeps its side open and silent for 100 s), applications that abandon the local handshake half-way (six partial SOCKS5 / HTTP handshakes, closed at once; the accounting waits out the client's 30 s handshake timer), flows to a refused port and to an unresolvable name, and six long flows whose client-server link is cut (FIN or RST) by a forwarder mid-transfer; oracles: positional streams (delivered first), end-of-stream on the far side, release of both ends after a link cut, and resource accounting: /proc/<pid>/fd by kind and tokio alive-task counts of client and server sampled until stable, compared with the idle baseline after each batch - growth with the number of ended flows is a violation, a constant offset is reported as warm-up state; evaluations = flows; distinct = distinct (configuration, flow)",
     "assumptions": E2E_TB + ["quiescence = descriptor and task counts unchanged for 2 s (watchdog 30 s; not settling is inconclusive)"],
     "plan": [{"name": "teardown", "check": "c15", "bin": "osv-e2e", "timeout": {"quick": 900, "thorough": 3600}}],
 }
 
 PROPS["C16"] = {
     "level": "exploration",
-    "rule": "the SHIPPED binaries (built with the hook feature off) are started with every documented value: Shadowsocks server x cipher name (7 + alias) x mode (5) with the documented socket set (tcp -> TCP; udp -> UDP; tcp_and_udp -> TCP+UDP; quic -> QUIC/UDP; tcp_and_quic -> TCP+QUIC/UDP), VMess and Trojan servers with and without a quic section, client modes (3) x cipher names; observers: sockets held by the process (/proc/<pid>/fd joined with /proc/net/tcp,udp), a canary through the independent reference client / reference server configured from the same README-level credential (so the name must select exactly that algorithm, key size and credential format), exit status and log; and 19 undocumented or inconsistent values (unknown / wrong-case / empty / missing cipher, protocol and mode names, keys of 0/16/31/33 bytes or not base64, short user key, malformed UUID, missing certificate files, VMess with an unlisted cipher): an error must be reported, no panic, no listening service, no silent fallback; quick covers three cipher names per mode plus every name with tcp_and_udp, thorough the full product; evaluations = process starts; distinct = distinct configurations",
+    "rule": "the SHIPPED binaries (built with the hook feature off) are started with every documented value: Shadowsocks server x cipher name (7 + alias) x mode (5) with the documented socket set (tcp -> TCP; udp -> UDP; tcp_and_udp -> TCP+UDP; quic -> QUIC/UDP; tcp_and_quic -> TCP+QUIC/UDP), Shadowsocks server mode (5) x transport sections {ssl, ws, ssl+ws, quic, ssl+quic} (sections change how the TCP side is spoken, never which sockets a mode opens; udp has priority over quic), VMess (both securities) and Trojan servers over tls / ws / wss / quic and with and without a quic section, client modes (3) x cipher names; observers: sockets held by the process (/proc/<pid>/fd joined with /proc/net/tcp,udp), canaries through the independent reference client / reference server configured from the same README-level credential - over plain TCP, inside TLS, inside WebSocket, over QUIC and, for the datagram relay, over UDP (so a legacy cipher must take the ordinary password on UDP as on TCP, and a mode that does not document a datagram relay must not answer one) (so the name must select exactly that algorithm, key size and credential format), exit status and log; and 19 undocumented or inconsistent values (unknown / wrong-case / empty / missing cipher, protocol and mode names, keys of 0/16/31/33 bytes or not base64, short user key, malformed UUID, missing certificate files, VMess with an unlisted cipher): an error must be reported, no panic, no listening service, no silent fallback; quick covers three cipher names per mode plus every name with tcp_and_udp, thorough the full product; evaluations = process starts; distinct = distinct configurations",
     "exhaustive_note": "thorough enumerates the documented value table (ciphers x modes) completely; the bad-value list is a fixed catalogue",
     "assumptions": TB + ["'reported' = non-zero exit status or a log line at ERROR level", "canaries use loopback echo targets"],
     "plan": [{"name": "config-table", "check": "c16", "bin": "osv-e2e", "shipped": True, "timeout": {"quick": 900, "thorough": 3600}}],
@@ -129,15 +130,15 @@ PROPS["C16"] = {
 
 PROPS["C13"] = {
     "level": "exploration",
-    "rule": "the real get_request_addr on a loopback socket pair with a scripted application that follows the protocol phases: the FULL product of methods {GET,POST,PUT,OPTIONS,HEAD} x 9 hosts (reg-names of 1..63 bytes, IPv4, bracketed IPv6 incl. embedded IPv4) x ports {absent,1,80,8080,65535} x 6 paths (with ':' and '://') x 5 queries (with '?', '/', 'http://') = 6750 absolute-URI requests, CONNECT x hosts x ports, header blocks up to 6 KiB, SOCKS5 CONNECT with IPv4 / IPv6 / domain (1..255 bytes), and the malformed / unsupported catalogue (origin-form, asterisk-form, missing scheme, empty host, bad ports, unbalanced brackets, CONNECT without port, SOCKS4, SOCKS5 BIND / unknown command / unknown ATYP / empty name / no acceptable method, TLS ClientHello, garbage); a sample of well-formed requests of each kind is additionally cut at EVERY byte position (two segments 25 ms apart) and sent byte by byte; oracle: independent request-target parser (refimpl::http, RFC 9112 / RFC 3986) and RFC 1928, exact leftover on the socket (payload only for SOCKS5/CONNECT, the untouched request for plain HTTP), protocol replies, refusal of everything malformed; evaluations = handshakes; distinct = distinct (request, segmentation)",
+    "rule": "the real get_request_addr on a loopback socket pair with a scripted application that follows the protocol phases: the FULL product of methods {GET,POST,PUT,OPTIONS,HEAD} x 9 hosts (reg-names of 1..63 bytes, IPv4, bracketed IPv6 incl. embedded IPv4) x ports {absent,1,80,8080,65535} x 6 paths (with ':' and '://') x 5 queries (with '?', '/', 'http://') = 6750 absolute-URI requests, CONNECT x hosts x ports, header blocks up to 6 KiB, SOCKS5 CONNECT with IPv4 / IPv6 / domain (1..255 bytes), and the malformed / unsupported catalogue (origin-form, asterisk-form, missing scheme, empty host, bad ports, unbalanced brackets, CONNECT without port, SOCKS4, SOCKS5 BIND / unknown command / unknown ATYP / empty name / no acceptable method, TLS ClientHello, garbage); a sample of well-formed requests of each kind is additionally cut at EVERY byte position (two segments 25 ms apart) and sent byte by byte; for SOCKS5 and CONNECT a further sample is sent by a client that does not wait for the final reply (18 / 1500 / 5000 tunnel bytes in the same segment as the last handshake message) and with ALL handshake messages and the first tunnel bytes in one segment; oracle: independent request-target parser (refimpl::http, RFC 9112 / RFC 3986) and RFC 1928, exact leftover on the socket (payload only for SOCKS5/CONNECT, the untouched request for plain HTTP), protocol replies, refusal of everything malformed; evaluations = handshakes; distinct = distinct (request, segmentation)",
     "exhaustive_note": "the request-target grammar product is enumerated completely; every single cut position is enumerated for 6 (quick) / 40 (thorough) requests of each kind",
-    "assumptions": TB + ["the application follows the protocol phases (waits for each reply before the next phase); eager pipelining across phases is not demanded", "an IPv6 host is compared modulo its brackets and textual form"],
+    "assumptions": TB + ["whole and cut deliveries follow the protocol phases (the application waits for each reply); the early-data families do not wait: 'consumes exactly the handshake bytes' is demanded for them too", "an IPv6 host is compared modulo its brackets and textual form"],
     "plan": [{"name": "local-handshake", "check": "c13"}],
 }
 
 PROPS["C08"] = {
     "level": "fault_enumeration",
-    "rule": "real client and server nodes (descriptor limit 160) behind a TCP forwarder and, for Shadowsocks UDP, a datagram man-in-the-middle; the fault catalogue (36 faults: connect-and-close, silent / garbage / TLS-hello / WebSocket-upgrade peers HELD OPEN during the canary, resets, connection flood, descriptor exhaustion of server and client, garbage and half-open QUIC connections, undecodable / replayed / path-duplicated datagrams in both directions, unresolvable and refused targets over TCP and UDP, application and target resets, stalled and garbage local handshakes, malformed local datagrams, client-server link cut or reset mid-flow, link down or stalled while flows start or a datagram binding is created, server restart) is applied one fault after another in a seed-chosen order on one long-lived pair per configuration, so every prefix is a fault SEQUENCE; after EACH fault: a fresh TCP flow (positional-stream oracle) and a fresh UDP exchange from a new application socket must succeed, both processes must be alive and must still hold every listening / bound socket of the baseline (/proc/<pid>/fd joined with /proc/net); a failing canary is believed only if it reproduces twice on fresh pairs with that fault alone (else once with the whole history); quick = 8 configurations (every protocol and transport), one pass; thorough = all 50 protocol x transport configurations, three shuffled passes; evaluations = faults applied; distinct = distinct (configuration, history length, fault)",
+    "rule": "real client and server nodes (descriptor limit 160) behind a TCP forwarder and, for Shadowsocks UDP, a datagram man-in-the-middle; the fault catalogue (38 faults: connect-and-close, silent / garbage / TLS-hello / WebSocket-upgrade peers HELD OPEN during the canary, resets, connection flood, descriptor exhaustion of server and client, garbage and half-open QUIC connections, undecodable / replayed / path-duplicated datagrams in both directions, unresolvable and refused targets over TCP and UDP, replies and requests too large to be wrapped, application and target resets, stalled and garbage local handshakes, malformed local datagrams, client-server link cut or reset mid-flow, link down or stalled while flows start or a datagram binding is created, server restart) is applied one fault after another in a seed-chosen order on one long-lived pair per configuration, so every prefix is a fault SEQUENCE; after EACH fault: a fresh TCP flow (positional-stream oracle) and a fresh UDP exchange from a new application socket must succeed, both processes must be alive and must still hold every listening / bound socket of the baseline (/proc/<pid>/fd joined with /proc/net); a failing canary is believed only if it reproduces twice on fresh pairs with that fault alone (else once with the whole history); quick = 8 configurations (every protocol and transport), one pass; thorough = all 50 protocol x transport configurations, three shuffled passes; evaluations = faults applied; distinct = distinct (configuration, history length, fault)",
     "exhaustive_note": "every applicable catalogue fault is applied in every configuration of the tier (single faults enumerated completely); sequences are the prefixes of seed-chosen permutations, i.e. samples",
     "assumptions": E2E_TB + ["'well-behaved other user' = a fresh TCP connection / a fresh UDP application socket; the same application's later traffic is not judged here", "canaries get 3 attempts of 10 s (TCP) / 2.5 s per datagram (UDP); typical latencies are recorded in the monitors"],
     "plan": [{"name": "faults", "check": "c08", "bin": "osv-e2e", "timeout": {"quick": 1200, "thorough": 5400}}],
